@@ -170,6 +170,15 @@ func c04Restart(c schedCase, orig *schedRun, s c04Snap) (*schedRun, error) {
 	nt.SetStatus(DoneStatus)
 	nt.SetClean()
 	h.tracked = append([]Status(nil), s.statuses...)
+	h.resumeExempt = map[string]bool{}
+	for i, st := range s.statuses {
+		switch st {
+		case DoingStatus:
+			h.resumeExempt[h.key(i, "do")] = true
+		case UndoingStatus:
+			h.resumeExempt[h.key(i, "undo")] = true
+		}
+	}
 	h.readySeen = make([]bool, len(h.chgs))
 	h.readyTime = make([]time.Time, len(h.chgs))
 	st.Unlock()
